@@ -377,7 +377,7 @@ UNKNOWN_LABEL = object()
 
 
 def gen_foreign(rng, pool=None, shuffle=True, blanks=True, crlf=None,
-                unknown_labels=False,
+                unknown_labels=False, nonfinite=False,
                 drop_optional=True, json_styles=True, p_main_none=0.12,
                 max_changes=3, max_files=3, big=False, meta_le=True,
                 long_opts=False):
@@ -465,6 +465,13 @@ def gen_foreign(rng, pool=None, shuffle=True, blanks=True, crlf=None,
 
             if kind == 'dos':
                 t = t.replace('\n', '\r\n')
+
+            if nonfinite and rng.chance(0.04):
+                # numbers beyond the float range and the Infinity literals
+                # that Python's json module reads and writes
+                t0 = t = '{"ratio": 1e999, "k": [Infinity, -Infinity, 1]}'
+                kind = 'unix'
+                nl = R.NL(kind, eff)
 
             try:
                 raw = t.encode(eff or 'utf-8')
@@ -587,8 +594,14 @@ def gen_foreign(rng, pool=None, shuffle=True, blanks=True, crlf=None,
         if rng.chance(0.5):
             content('..meta')
 
+        same_fe = rng.choice(pool) if rng.chance(0.1) else None
+
         for _ in range(rng.randint(1, max_files)):
             fe = rng.choice(pool) if rng.chance(0.3) else None
+
+            if same_fe is not None:
+                fe = same_fe    # every file header of this change alike
+
             del scope[2:]
             scope.append(fe or scope[-1])
 
@@ -675,7 +688,7 @@ def gen_stream_extras(rng):
 
     if rng.chance(0.08):
         # the consumer edits the records it was handed
-        d['mutate'] = rng.randint(1, 4)
+        d['mutate'] = rng.randint(1, 5)
 
     if rng.chance(0.1):
         # a second, unrelated reader alive and advanced alternately
